@@ -73,11 +73,11 @@ package setec
 //@   ensures [C13 flush.at-most-one] cacheWrites == old(cacheWrites) || cacheWrites == old(cacheWrites) + 1
 //@   ensures [C12 flush.noeffect] sameEntries(s) && net == old(net)
 //@ func (FileCache).Write(f, data) (err)
-//@   ensures [C05,C11,C13 filecache.atomic-0600] err == nil ==> disk == diskWrite(old(disk), str(f), bytes(data), 384)
-//@   ensures [C11,C13 filecache.fail-keeps-old] err != nil ==> disk == old(disk)
+//@   ensures [C05,C11,C13,C18 filecache.atomic-0600] err == nil ==> disk == diskWrite(old(disk), str(f), bytes(data), 384)
+//@   ensures [C11,C13,C18 filecache.fail-keeps-old] err != nil ==> disk == old(disk)
 
 //@ func (FileCache).Read(f) (b, err)
-//@   ensures [C13 filecache.reads-the-file] err == nil ==> (diskHas(disk, str(f)) && bytes(b) == diskData(disk, str(f)))
+//@   ensures [C13,C18 filecache.reads-the-file] err == nil ==> (diskHas(disk, str(f)) && bytes(b) == diskData(disk, str(f)))
 //@   ensures [C13 filecache.read-only] disk == old(disk)
 //@ func NewMemCache(s) (m)
 //@   ensures [C13 memcache.initial] m != nil && fresh(m) && bytes(m.data) == s
@@ -132,7 +132,7 @@ package setec
 //@ pred mayExpire(s *Store, n string) { has(s.active.m, n) && !s.active.m[n].Declared && s.expiryAge > 0 && !has(s.active.f, n) }
 //@ func (*Store).snapshotActive(s) (m)
 //@   requires storeInv(s) && !s.active.Mutex
-//@   ensures [C11,C19 snapshot.exact] m != nil && fresh(m) && (forall n string :: has(m, n) == has(s.active.m, n) && (has(m, n) ==> (m[n].version == s.active.m[n].Secret.Version && (m[n].expired ==> mayExpire(s, n)))))
+//@   ensures [C11,C15,C16,C19 snapshot.exact] m != nil && fresh(m) && (forall n string :: has(m, n) == has(s.active.m, n) && (has(m, n) ==> (m[n].version == s.active.m[n].Secret.Version && (m[n].expired ==> mayExpire(s, n)))))
 //@   ensures [C12 snapshot.inv] storeInv(s) && !s.active.Mutex && sameEntries(s) && handlesKept(s) && net == old(net) && cacheWrites == old(cacheWrites)
 //@   loop 0
 //@     invariant [state] storeInv(s) && s.active.Mutex && sameEntries(s) && handlesKept(s) && net == old(net) && cacheWrites == old(cacheWrites) && m != nil && fresh(m)
@@ -339,7 +339,10 @@ package setec
 //@ callers [C11,C19 poll-only-in-singleflight] (*client/setec.Store).poll only-from (*client/setec.Store).Refresh$1
 //@ callers [C11,C19 apply-only-in-singleflight] (*client/setec.Store).applyUpdates only-from (*client/setec.Store).Refresh$1
 //@ callers [C11 refresh-closure-only-via-dochan] (*client/setec.Store).Refresh$1 only-from (*client/setec.Store).Refresh (value)
-//@ nocall [C05,C11,C13 cache-written-only-atomically] in client/setec: os.WriteFile, os.Create, os.OpenFile, os.Rename, os.Truncate, (*os.File).Write, (*os.File).WriteString
+// Lock-set discipline: the cached entries are read and written only while the store lock is held, except during
+// construction (the store is not shared yet) and in helpers whose callers hold the lock.
+//@ guarded [C12 entries-accessed-under-the-store-lock] cachedSecret: Secret, LastAccess, Declared by active.Mutex of Store except NewStore, initializeActive, isActiveSetValid, flushCacheLocked, hasExpired, lastAccessTime
+//@ nocall [C05,C11,C13,C18 cache-written-only-atomically] in client/setec: os.WriteFile, os.Create, os.OpenFile, os.Rename, os.Truncate, (*os.File).Write, (*os.File).WriteString
 //@ nocall [C11,C16 coalescing-never-abandoned] in client/setec: (*golang.org/x/sync/singleflight.Group).Forget
 //@ callers [C16 lookup-closure-only-via-do] (*client/setec.Store).lookupSecretInternal$1 only-from (*client/setec.Store).lookupSecretInternal (value)
 // A-interval: a poll interval of at least 5ns (below that 2*interval/10 is 0 and rand.Intn panics)
